@@ -66,6 +66,41 @@ Theorem C02_continuation_join_refuted :
 Proof. exact continuation_join_refuted. Qed.
 Print Assumptions C02_continuation_join_refuted.
 
+(* eval(): the value stored at load time, the rule fields looked up at enforce time, and the text
+   handed to the parser after splicing: every eval(p.f) becomes  ( <escaped rule tokens> )  — one
+   parenthesised atom — whatever the spacing of the matcher and of the rule texts (pieces = tokens
+   with the blanks before / after them; rule texts are themselves admissible well-formed layouts) *)
+Theorem C02_eval_splice_tokens : forall rs ps pcs Rs,
+  forallb is_digit rs = true -> forallb is_digit ps = true -> pcs <> [] ->
+  adm pcs = true -> forallb (wf_tok rs ps) (toks pcs) = true -> forallb casbin_tok (toks pcs) = true ->
+  Forall (fun R => adm R = true /\ forallb (wf_tok rs ps) (toks R) = true
+                   /\ forallb casbin_tok (toks R) = true /\ existsb eval_tok (toks R) = false) Rs ->
+  length Rs = length (filter eval_tok (toks pcs)) ->
+  let stored := stored_value (render_pieces pcs) in
+  get_eval_value None 0 stored = eval_args (toks pcs)
+  /\ exists spliced,
+       replace_eval (map (fun R => escape_assertion (render_pieces R)) Rs) None 0 stored = Some spliced
+       /\ py_tokens (get_expression spliced)
+          = Some (flat_map tr (splice_toks (toks pcs) (map toks Rs))).
+Proof. exact eval_splice_pieces. Qed.
+Print Assumptions C02_eval_splice_tokens.
+
+(* non-vacuity of the eval theorem:  eval(p.rule)&&r.obj==p.obj  with the rule text  r.sub.Age>18||r.sub.Name=="x" *)
+Definition ex_m : list piece :=
+  [([], TEval [] [114; 117; 108; 101], []); ([], TAnd, []); ([], TReq [] [111; 98; 106] [], []); ([], TCmp CEq, []); ([], TPol [] [111; 98; 106], [])].
+Definition ex_rule : list piece :=
+  [([], TReq [] [115; 117; 98] [[65; 103; 101]], []); ([], TCmp CGt, []); ([], TInt [49; 56], []); ([], TOr, []);
+   ([], TReq [] [115; 117; 98] [[78; 97; 109; 101]], []); ([], TCmp CEq, []); ([], TStr true [120], [])].
+Example C02_example_eval :
+  render_pieces ex_m = [101; 118; 97; 108; 40; 112; 46; 114; 117; 108; 101; 41; 38; 38; 114; 46; 111; 98; 106; 61; 61; 112; 46; 111; 98; 106] /\ render_pieces ex_rule = [114; 46; 115; 117; 98; 46; 65; 103; 101; 62; 49; 56; 124; 124; 114; 46; 115; 117; 98; 46; 78; 97; 109; 101; 61; 61; 34; 120; 34]
+  /\ adm ex_m = true /\ adm ex_rule = true
+  /\ forallb (wf_tok [] []) (toks ex_m ++ toks ex_rule) = true
+  /\ option_map (fun s => py_tokens (get_expression s))
+       (replace_eval [escape_assertion (render_pieces ex_rule)] None 0 (stored_value (render_pieces ex_m)))
+     = Some (Some [TLP; TId [114; 95; 115; 117; 98]; TDot; TId [65; 103; 101]; TCmp CGt; TInt [49; 56]; TKOr; TId [114; 95; 115; 117; 98]; TDot; TId [78; 97; 109; 101];
+                   TCmp CEq; TStr true [120]; TRP; TKAnd; TId [114; 95; 111; 98; 106]; TCmp CEq; TId [112; 95; 111; 98; 106]]).
+Proof. vm_compute. repeat split; reflexivity. Qed.
+
 (* non-vacuity: r.sub==p.sub&&!(r.obj!=p.obj)||r.act in("read",'w')  with NO optional blank *)
 Definition ex_ts : list tok :=
   [TReq [] [115; 117; 98] []; TCmp CEq; TPol [] [115; 117; 98]; TAnd; TNot; TLP; TReq [] [111; 98; 106] []; TCmp CNe; TPol [] [111; 98; 106]; TRP;
